@@ -10,9 +10,19 @@ from translate import scan_skel as S  # noqa: E402
 
 
 def main():
-    src = open(os.path.join(S.REPO, S.SRC_REL)).read()
-    ref, refc = S.read_all(src)
+    real = open(os.path.join(S.REPO, S.SRC_REL)).read()
     bad = []
+    # the source as it is must parse (since /repo 3bcb63a the four additions are `saturating_add`)
+    try:
+        S.read_all(real)
+        print("%-28s %-5s ok" % ("source as it is", "parse"))
+    except S.ParseError as e:
+        bad.append("source as it is: " + str(e)[:100])
+    # the rewrites below were written against the plain-addition form: bring the text back to it in memory
+    src = real.replace("self.row.saturating_add(self.block_size).min(sequence_rows)",
+                       "(self.row + self.block_size).min(sequence_rows)") \
+        .replace("self.row = self.row.saturating_add(self.block_size);", "self.row += self.block_size;")
+    ref, refc = S.read_all(src)
 
     def t(name, f, expect):
         s2 = f(src)
